@@ -5,12 +5,16 @@ package main
 import (
 	"encoding/json"
 	"fmt"
+	"golang.org/x/tools/go/callgraph"
+	"golang.org/x/tools/go/ssa"
 	"os"
 	"path/filepath"
 	"sort"
 	"strings"
 	"time"
 )
+
+var procStart = time.Now()
 
 type Obligation struct {
 	Rule   string `json:"rule"`
@@ -43,12 +47,15 @@ type Ctx struct {
 	notes    []string
 	start    time.Time
 	quiet    bool
+	dump     bool
+	chain    map[*ssa.Function]bool
+	reachSet map[*ssa.Function]*callgraph.Edge
 }
 
 func newCtx(prop, tier string, l *Loaded, verif string) *Ctx {
 	return &Ctx{Prop: prop, Tier: tier, L: l, Verif: verif, seenKeys: map[string]bool{},
 		counts: map[string]int{}, floors: map[string]int{}, analysed: map[string]any{},
-		rulesDoc: map[string]string{}, start: time.Now()}
+		rulesDoc: map[string]string{}, start: procStart}
 }
 
 func (c *Ctx) doc(rule, text string) { c.rulesDoc[rule] = text }
@@ -174,6 +181,11 @@ func (c *Ctx) finish(onlyKey string) int {
 				fl = fmt.Sprintf(" (floor %d)", f)
 			}
 			fmt.Printf("rule %-18s obligations=%d discharged=%d%s  %s\n", r, rs[r][0], rs[r][1], fl, c.rulesDoc[r])
+		}
+	}
+	if c.dump {
+		for _, o := range c.obs {
+			fmt.Printf("  [%v] %s @%s %s\n", o.OK, o.Key, o.Pos, o.Detail)
 		}
 	}
 	for _, o := range knownHit {
